@@ -258,9 +258,10 @@ def run_l2(m, cfg, prefix, horizon=400, iteration=1):
     import io, contextlib, signal
 
     def _alarm(signum, frame):
-        raise TimeoutError("no return within %s s" % EXEC_TIMEOUT)
-    old = signal.signal(signal.SIGALRM, _alarm)
-    signal.setitimer(signal.ITIMER_REAL, EXEC_TIMEOUT)
+        raise TimeoutError("no return within %s s of processor time" % EXEC_TIMEOUT)
+    # processor time of this process, not wall time: a loaded machine must not turn into a verdict
+    old = signal.signal(signal.SIGPROF, _alarm)
+    signal.setitimer(signal.ITIMER_PROF, EXEC_TIMEOUT)
     try:
         with sched.owned(s), contextlib.redirect_stdout(io.StringIO()):
             s.out = m.solve_stochast(t_arg, iteration, exact=exact, full_output=True)
@@ -271,8 +272,8 @@ def run_l2(m, cfg, prefix, horizon=400, iteration=1):
     except Exception as e:       # the property says the call returns
         s.error = ("exception", "%s: %s" % (type(e).__name__, e))
     finally:
-        signal.setitimer(signal.ITIMER_REAL, 0)
-        signal.signal(signal.SIGALRM, old)
+        signal.setitimer(signal.ITIMER_PROF, 0)
+        signal.signal(signal.SIGPROF, old)
     return s
 
 
